@@ -257,7 +257,7 @@ const INSITU_BASE: u64 = 500_000_000;
 fn run_c12(tier: &str, seed: u64, threads: usize, histories: Option<u64>, replay: Option<&str>) -> i32 {
     let t0 = std::time::Instant::now();
     let per_batch = 2_000u64;
-    let n = histories.unwrap_or(if tier == "quick" { 250 } else { 5_000 });
+    let n = histories.unwrap_or(if tier == "quick" { 250 } else { 20_000 });
     let mut seed = seed;
     let sum = if let Some(path) = replay {
         let v: serde_json::Value = match std::fs::read_to_string(path).ok().and_then(|s| serde_json::from_str(&s).ok()) {
@@ -277,7 +277,7 @@ fn run_c12(tier: &str, seed: u64, threads: usize, histories: Option<u64>, replay
         // in situ: the plans the hub and the registry compute inside real transactions of full-world histories
         if sum.first_violation.is_none() {
             let spec = crate::props::spec_c12_insitu();
-            let n2 = if tier == "quick" { 150 } else { 3000 };
+            let n2 = if tier == "quick" { 150 } else { 12_000 };
             let s2 = run_sharded(n2, threads, |i| crate::driver::run_full_history(&spec, seed, 12, INSITU_BASE + i, false));
             sum.absorb(s2);
         }
